@@ -336,12 +336,16 @@ fn read_chrom_node(
     problems: &mut Vec<String>,
     unsorted: &mut bool,
     depth: usize,
+    block_size: u32,
 ) -> R<()> {
     if depth > 16 {
         return Err("chromosome tree deeper than 16 levels".into());
     }
     let is_leaf = rd.u8(node)?;
     let count = rd.u16(node + 2)? as u64;
+    if count > block_size as u64 {
+        problems.push(format!("chromosome tree node holds {} items, more than the tree's blockSize {}", count, block_size));
+    }
     let stride = key_size as u64 + 8;
     let mut prev_key: Option<Vec<u8>> = None;
     for i in 0..count {
@@ -363,7 +367,7 @@ fn read_chrom_node(
             out.push((name, rd.u32(item + key_size as u64)?, rd.u32(item + key_size as u64 + 4)?));
         } else if is_leaf == 0 {
             let child = rd.u64(item + key_size as u64)?;
-            read_chrom_node(rd, child, key_size, out, problems, unsorted, depth + 1)?;
+            read_chrom_node(rd, child, key_size, out, problems, unsorted, depth + 1, block_size)?;
         } else {
             return Err(format!("chromosome tree node at {} has isLeaf={}", node, is_leaf));
         }
@@ -508,6 +512,7 @@ pub fn decode(bytes: &[u8]) -> Result<Decoded, String> {
         &mut problems,
         &mut chrom_keys_unsorted,
         0,
+        chrom_tree_block_size,
     )?;
     if chroms.len() as u64 != chrom_item_count {
         problems.push(format!(
